@@ -41,6 +41,7 @@ EXPECTED_PROBES = ["writer_to_parquet", "writer_pack", "ge_11_partitions", "read
                    "read_glob", "bounds_kw", "geometry_kw", "box_touches_partition_extent",
                    "box_disjoint_from_all", "partition_with_undefined_extent", "pruned_some",
                    "second_generation_over_first", "written_after_partition_bounds_cached",
+                   "rewrite_after_cx",
                    "end_to_end_cx"]
 
 
@@ -75,8 +76,10 @@ def cases(tier, base_seed):
                                                 "disjoint", "cover", "cover")),
                           "box": gen.gen_box(rng), "pick": rng.getrandbits(16),
                           "reverse": rng.choice((0, 0, 0, 1, 2, 3))})   # bit0: x ends, bit1: y ends
-        rewrite = {"mod": rng.choice((2, 3)), "rem": rng.randint(0, 1)} \
-            if rng.random() < 0.35 else None
+        rewrite = {"mod": rng.choice((2, 3)), "rem": rng.randint(0, 1),
+                   "via": rng.choice(("filter", "filter", "cx_cover", "cx_box")),
+                   "box": gen.gen_box(rng)} \
+            if rng.random() < 0.4 else None
         plain = None
         regen = {"dx": rng.choice((1, 2, 3, -1, 4))} if rng.random() < 0.3 else None
         if rng.random() < 0.25:
@@ -223,7 +226,17 @@ def _generation(case, spec, base, fs, probes, sig, generation):
         src = _guard("read_parquet_dask", lambda: read_parquet_dask(
             os.path.join(base, "ds_0"), filesystem=fs), sig)
         m = case["rewrite"]
-        flt = src[src["v"] % m["mod"] != m["rem"]]
+        via = m.get("via", "filter")
+        if via == "filter":
+            flt = src[src["v"] % m["mod"] != m["rem"]]
+        else:
+            # ... or selected with cx: a box covering everything stored (only rows without an
+            # active geometry drop out), or an arbitrary one
+            b = m["box"]
+            if via == "cx_cover":
+                b = [-1000.0, -1000.0, 1000.0, 1000.0]
+            flt = _guard("cx before rewriting", lambda: src.cx[b[0]:b[2], b[1]:b[3]], sig)
+            probes["rewrite_after_cx"] = 1
         path = os.path.join(base, "ds_2")
         sig["writer"] = "rewrite"
         _guard("to_parquet after filter",
